@@ -276,6 +276,35 @@ func generate(rng *rand.Rand, tier string) []interface{} {
 			}
 		}
 	}
+	// ---- 2e. the aggregating node learns the tree only through its children's answers, and the second
+	// answer's tree lookup misses just before the tree arrives (interleaving forced with the overlay's
+	// schedule points): the batch must still be delivered
+	for _, typ := range aggTypes {
+		for _, order := range [][]int{{1, 2}, {2, 1}} {
+			for _, more := range []bool{false, true} {
+				b := newBuilder(rng, 0)
+				for _, c := range order {
+					b.msgs = append(b.msgs, nodeh.Msg{Inst: 0, From: c, Peer: c, Wire: -1, Type: typ, Payload: b.payload, Route: "process"})
+					b.payload++
+				}
+				b.msgs = append(b.msgs, nodeh.Msg{Inst: 0, From: 0, Peer: nodeh.PeerNone, Wire: -1, Type: nodeh.TFence, Payload: b.fence, Route: "process"})
+				b.fence++
+				if more {
+					for _, c := range shuffled(rng, []int{1, 2}) {
+						b.send(0, c, typ)
+					}
+				}
+				for i := range b.msgs {
+					if b.msgs[i].Route == "transmit" {
+						b.msgs[i].Route = "process" // no message proxy for an in-process TransmitMsg while the tree may be unknown
+					}
+				}
+				in := b.scenario(star(2), fmt.Sprintf("late-tree-park/fanout-2/%s", kindName[typ]))
+				in.LateTree, in.ParkRace = true, true
+				ins = append(ins, in)
+			}
+		}
+	}
 	// ---- 3. several aggregated types (and single ones) in flight at once
 	nm := 150
 	if thorough {
@@ -541,7 +570,7 @@ func main() {
 		Import: "Onet.Corr.C04",
 		Rule: "all arrival orders of the children's messages for fan-out 1..4 (1 round; 2 rounds: full product up to fan-out 3, sampled for 4; 3 rounds sampled), " +
 			"fan-out 5 sampled; handler and channel registrations; an inner node (depth 1, and depth 2-3 where the parent is not the root) with the parent's messages of the same aggregated type in between; aggregated channels of capacity 1, 2 and 100 with 2-5 complete rounds handed over BEFORE the protocol reads (the unchanged code waits in the channel send); 2-3 aggregated types plus single types in flight; " +
-			"the children's first messages handed over concurrently while the protocol constructor is slow (race for the creation of the instance; acceptance order read off the batch); two instances on one node interleaved; seeded scenarios outside the hypotheses of the theorems, judged by the literal reading of the text: children pipelining rounds (class unseparated), tree members that are not children sending the type (nonchild), a forged child message among the genuine ones (poisoned) -- the pinned code deviates there (known findings); every scenario is judged except trees with repeated node ids (class prefix unjudged-repeated-ids, none generated); " +
+			"a node that learns the tree through its children's answers, the second answer's lookup missing just before the tree arrives (forced with the overlay's schedule points); the children's first messages handed over concurrently while the protocol constructor is slow (race for the creation of the instance; acceptance order read off the batch); two instances on one node interleaved; seeded scenarios outside the hypotheses of the theorems, judged by the literal reading of the text: children pipelining rounds (class unseparated), tree members that are not children sending the type (nonchild), a forged child message among the genuine ones (poisoned) -- the pinned code deviates there (known findings); every scenario is judged except trees with repeated node ids (class prefix unjudged-repeated-ids, none generated); " +
 			"a fence message through the same instance after every injected message; non-trivial = an aggregated batch was delivered",
 		Shard:    120,
 		Generate: generate,
